@@ -411,3 +411,416 @@ def run_reject(ctx, drv, n):
     for c in range(n):
         rng = ctx.rng.fork(130000 + c)
         check_reject_history(ctx, drv, gen_reject_history(rng))
+
+
+# ------------------------------------------------------------------------------------------
+# forms stream: the public argument forms and keyword defaults of the four methods vs Model/ResampleArgs.lean
+
+PARAMS = {"bin": ["bin_factors", "axes", "modify_in_place", "reducer"],
+          "crop": ["crop_widths", "axes", "modify_in_place"],
+          "resample": ["out_shape", "factors", "axes", "modify_in_place"],
+          "pad": ["pad_width", "output_shape", "modify_in_place"]}
+
+
+class _Other:
+    """an argument that is neither a number nor iterable"""
+
+
+def py_of(j):
+    """JSON argument form -> the Python object handed to the real code"""
+    if j is None or isinstance(j, (bool, int)):
+        return j
+    if j == "other":
+        return _Other()
+    if "t" in j:
+        return tuple(py_of(x) for x in j["t"])
+    if "l" in j:
+        return [py_of(x) for x in j["l"]]
+    if "f" in j:
+        return float(jf(j["f"]))
+    if "np" in j:
+        return np.int64(j["np"])
+    return str(j["s"])
+
+
+def sc_int_form(rng, v, allow_float=True):
+    """one integer value in one of its scalar forms"""
+    r = rng.random()
+    if r < 0.55:
+        return int(v)
+    if r < 0.75:
+        return {"np": int(v)}
+    if r < 0.9 and allow_float:
+        return {"f": fj(Fraction(int(v)))}
+    if v in (0, 1) and rng.chance(0.5):
+        return bool(v)
+    return int(v)
+
+
+def axes_form(rng, ndim, axl):
+    """axl: list of (possibly negative) axes, or None for all axes -> (json form or absent marker)"""
+    if axl is None:
+        return "absent" if rng.chance(0.6) else None
+    if len(axl) == 1 and rng.chance(0.5):
+        a = axl[0]
+        r = rng.random()
+        if r < 0.6:
+            return int(a)
+        if r < 0.85:
+            return {"f": fj(Fraction(int(a)))}          # annotated `int | float`
+        return bool(a) if a in (0, 1) else int(a)
+    items = [sc_int_form(rng, a) for a in axl]
+    return {"t": items} if rng.chance(0.7) else {"l": items}
+
+
+def gen_form_call(rng, cur, dtype):
+    """one call in argument-form JSON; returns (call, resolved C03-style op or None, new shape, valid?)"""
+    ndim = len(cur)
+    m = rng.weighted([("bin", 5), ("crop", 2), ("resample", 3), ("pad", 3)])
+    bad = rng.chance(0.22)
+    call = {"m": m}
+    ip = rng.chance(0.5)
+    if rng.chance(0.8) or ip:
+        call["inplace"] = ip              # otherwise the keyword is omitted: the default (False) decides
+    else:
+        ip = False
+    new = list(cur)
+    op = None
+    if m == "bin":
+        axj = gen_axes_any(rng, ndim)
+        axl = None if axj is None else axes_list(axj, ndim)
+        eff = list(range(ndim)) if axl is None else [a % ndim for a in axl]
+        mean = rng.chance(0.35)
+        fs = [rng.choice([1, 2, 2, 4] if mean else [1, 2, 2, 3]) for _ in eff]
+        fs = [f if cur[a] // f >= 1 else 1 for f, a in zip(fs, eff)]
+        if len(set(fs)) == 1 and rng.chance(0.5):
+            call["f"] = sc_int_form(rng, fs[0], allow_float=False)
+        else:
+            items = [sc_int_form(rng, f, allow_float=False) for f in fs]
+            call["f"] = {"t": items} if rng.chance(0.6) else {"l": items}
+        af = axes_form(rng, ndim, axl)
+        if af != "absent":
+            call["axes"] = af
+        if mean:
+            call["reducer"] = {"s": rng.choice(["mean", "MEAN", "Mean", "mEaN"])}
+        elif rng.chance(0.5):
+            call["reducer"] = {"s": rng.choice(["sum", "SUM", "Sum"])}
+        if bad:
+            why = rng.choice(["reducer", "reducer-type", "factor-float", "factor-str", "factor-none", "factor-in-tuple", "factor-zero", "axes-none-item",
+                              "axes-range", "axes-other", "factor-length"])
+            if why == "reducer":
+                call["reducer"] = {"s": rng.choice(["median", "", "sum ", "summ", "max"])}
+            elif why == "reducer-type":
+                call["reducer"] = rng.choice([None, 1, True])
+            elif why == "factor-float":
+                call["f"] = {"f": fj(Fraction(2))}
+            elif why == "factor-str":
+                call["f"] = {"s": "2"}
+            elif why == "factor-none":
+                call["f"] = None
+            elif why == "factor-in-tuple":
+                call["f"] = {"t": [2] * (len(eff) - 1) + [rng.choice([{"f": fj(Fraction(5, 2))}, None, {"s": "2"}])]}
+            elif why == "factor-zero":
+                call["f"] = rng.choice([0, -1, False, {"np": 0}])
+            elif why == "axes-none-item":
+                call["axes"] = {"t": [0, None][: max(2, 1)]}
+            elif why == "axes-range":
+                call["axes"] = rng.choice([ndim, -ndim - 1, {"t": [0, ndim]}, {"f": fj(Fraction(ndim))}])
+            elif why == "axes-other":
+                call["axes"] = "other"
+            else:
+                call["f"] = {"t": [2] * (len(eff) + 1)}
+            call["why"] = why
+            return call, None, list(cur), False
+        op = {"op": "bin", "f": {"many": fs}, "axes": {"many": eff}, "mean": mean}
+        for a, f_ in zip(eff, fs):
+            new[a] = cur[a] // f_
+    elif m == "crop":
+        axj = gen_axes_any(rng, ndim)
+        axl = None if axj is None else axes_list(axj, ndim)
+        eff = list(range(ndim)) if axl is None else [a % ndim for a in axl]
+        ws = [[rng.randint(0, 1), -rng.randint(0, 1)] if cur[a] >= 3 else [0, 0] for a in eff]
+        call["widths"] = ws
+        af = axes_form(rng, ndim, axl)
+        if af != "absent":
+            call["axes"] = af
+        if bad:
+            why = rng.choice(["axes-range", "widths-length", "axes-none-item"])
+            if why == "axes-range":
+                call["axes"] = rng.choice([ndim, {"t": [-ndim - 1]}])
+                call["widths"] = [[0, 0]]
+            elif why == "widths-length":
+                call["axes"] = {"t": [0]}
+                call["widths"] = [[0, 0], [0, 0]]
+            else:
+                call["axes"] = {"l": [None]}
+                call["widths"] = [[0, 0]]
+            call["why"] = why
+            return call, None, list(cur), False
+        for a, (b, e) in zip(eff, ws):
+            new[a] = cur[a] - b + e
+    elif m == "resample":
+        axj = gen_axes_any(rng, ndim)
+        axl = None if axj is None else axes_list(axj, ndim)
+        eff = list(range(ndim)) if axl is None else [a % ndim for a in axl]
+        af = axes_form(rng, ndim, axl)
+        if af != "absent":
+            call["axes"] = af
+        if rng.chance(0.55):
+            outs = [max(1, cur[a] + rng.randint(-2, 3)) for a in eff]
+            items = [sc_int_form(rng, o) for o in outs]
+            call["out"] = {"t": items} if rng.chance(0.7) else {"l": items}
+        else:
+            qs = [Fraction(rng.choice([1, 2, 3, 4, 5, 6, 7, 8, 10, 12]), 4) for _ in eff]       # dyadic: n*f is exact, ties (x.5) occur
+            if len(set(qs)) == 1 and rng.chance(0.5):
+                call["fs"] = {"f": fj(qs[0])} if qs[0].denominator != 1 or rng.chance(0.5) else int(qs[0])
+            else:
+                items = [{"f": fj(q)} if q.denominator != 1 or rng.chance(0.6) else int(q) for q in qs]
+                call["fs"] = {"t": items} if rng.chance(0.7) else {"l": items}
+            outs = [max(1, round(cur[a] * q)) for a, q in zip(eff, qs)]          # Python round on a Fraction: half to even, exact
+        if bad:
+            why = rng.choice(["both", "neither", "out-scalar", "out-length", "fs-none-item", "fs-length", "out-zero", "axes-range", "fs-other"])
+            if why == "both":
+                call["out"], call["fs"] = {"t": [3] * len(eff)}, {"f": "3/2"}
+            elif why == "neither":
+                call.pop("out", None), call.pop("fs", None)
+            elif why == "out-scalar":
+                call.pop("fs", None)
+                call["out"] = 4
+            elif why == "out-length":
+                call.pop("fs", None)
+                call["out"] = {"t": [3] * (len(eff) + 1)}
+            elif why == "fs-none-item":
+                call.pop("out", None)
+                call["fs"] = {"t": [{"f": "3/2"}] * (len(eff) - 1) + [None]}
+            elif why == "fs-length":
+                call.pop("out", None)
+                call["fs"] = {"l": [{"f": "3/2"}] * (len(eff) + 1)}
+            elif why == "out-zero":
+                call.pop("fs", None)
+                call["out"] = {"t": [2] * (len(eff) - 1) + [rng.choice([0, {"f": "1/2"}, -1])]}     # int(0.5) == 0
+            elif why == "axes-range":
+                call["axes"] = rng.choice([ndim, {"t": [0, -ndim - 1]}])
+            else:
+                call.pop("out", None)
+                call["fs"] = "other"
+            call["why"] = why
+            return call, None, list(cur), False
+        op = {"op": "resample", "axes": eff, "outs": outs}
+        for a, o in zip(eff, outs):
+            new[a] = o
+    else:
+        r = rng.random()
+        if r < 0.45:
+            out = [n + rng.randint(0, 3) for n in cur]
+            call["arg"] = {"out": out}
+            new = list(out)
+        elif r < 0.8:
+            ws = [[rng.randint(0, 3), rng.randint(0, 3)] for _ in cur]
+            call["arg"] = {"per": ws}
+            new = [n + b + a for n, (b, a) in zip(cur, ws)]
+        elif r < 0.9:
+            k = rng.randint(0, 2)
+            call["arg"] = {"all": k}
+            new = [n + 2 * k for n in cur]
+        else:
+            b, a = rng.randint(0, 3), rng.randint(0, 3)
+            call["arg"] = {"pair": [b, a]}
+            new = [n + b + a for n in cur]
+        mode = rng.weighted([("absent", 3), ("constant", 2), ("edge", 2), ("wrap", 2), ("reflect", 2), ("symmetric", 2)])
+        if mode == "constant":
+            c = rng.randint(0, 5)
+            call["mode"] = {"constant": [c, 0]}
+            call["mode_kw"] = rng.chance(0.5)          # mode="constant" written out, or constant_values alone
+        elif mode != "absent":
+            call["mode"] = mode
+        if bad:
+            why = rng.choice(["both", "neither", "out-length", "negative"])
+            call["arg"] = {"both": "both", "neither": "neither", "out-length": {"out": [n + 1 for n in cur] + [2]},
+                           "negative": {"per": [[0, -1]] * ndim}}[why]
+            call["why"] = why
+            return call, None, list(cur), False
+        op = {"op": "pad", "widths": None}
+    if int(np.prod(new)) > 400 or min(new) < 1:
+        return gen_form_call(rng, cur, dtype)
+    if not ip and m != "resample" and rng.chance(0.5):
+        call["follow"] = True
+    if m == "resample" and ip:
+        call["inplace"] = False              # exact histories: Fourier resampling only as a copying call that is not followed
+        ip = False
+    return call, op, (new if (ip or call.get("follow")) else list(cur)), True
+
+
+def apply_form_call(ds, call):
+    """the real call, with exactly the arguments the case wrote (a random number of them positional)"""
+    m = call["m"]
+    vals = {}
+    if m == "bin":
+        vals["bin_factors"] = py_of(call["f"])
+        if "reducer" in call:
+            vals["reducer"] = py_of(call["reducer"])
+    elif m == "crop":
+        vals["crop_widths"] = tuple(tuple(w) for w in call["widths"])
+    elif m == "resample":
+        if "out" in call:
+            vals["out_shape"] = py_of(call["out"])
+        if "fs" in call:
+            vals["factors"] = py_of(call["fs"])
+    else:
+        a = call["arg"]
+        if a == "both":
+            vals["pad_width"], vals["output_shape"] = 1, (3,)
+        elif a == "neither":
+            pass
+        elif "all" in a:
+            vals["pad_width"] = int(a["all"])
+        elif "pair" in a:
+            vals["pad_width"] = tuple(a["pair"])
+        elif "per" in a:
+            vals["pad_width"] = tuple(tuple(p) for p in a["per"])
+        else:
+            vals["output_shape"] = tuple(a["out"])
+    if "axes" in call:
+        vals["axes"] = py_of(call["axes"])
+    if "inplace" in call:
+        vals["modify_in_place"] = bool(call["inplace"])
+    # positional prefix: the leading parameters of the signature, as long as every one of them is given
+    args = []
+    for p in PARAMS[m][: int(call.get("posn", 0))]:
+        if p in vals:
+            args.append(vals.pop(p))
+        elif m in ("resample", "pad") and p in ("out_shape", "pad_width") and len(vals) and PARAMS[m][1] in vals:
+            args.append(None)                   # fourier_resample(None, 1.5) / pad(None, (8, 8))
+        else:
+            break
+    kw = dict(vals)
+    if m == "pad" and "mode" in call:
+        md = call["mode"]
+        if isinstance(md, dict):
+            if call.get("mode_kw"):
+                kw["mode"] = "constant"
+            kw["constant_values"] = int(md["constant"][0])
+        else:
+            kw["mode"] = md
+    meth = {"bin": "bin", "crop": "crop", "resample": "fourier_resample", "pad": "pad"}[m]
+    return getattr(ds, meth)(*args, **kw)
+
+
+def gen_forms_history(rng):
+    ndim = rng.weighted([(1, 3), (2, 4), (3, 2)])
+    shape = [rng.randint(2, 7) if not rng.chance(0.15) else 1 for _ in range(ndim)]
+    dtype = rng.choice(["int64", "int32", "uint8", "float64", "float32", "complex128"])
+    a = gen_array(rng, shape, dtype)
+    new = {"op": "new", "cls": "Dataset" if ndim == 1 or rng.chance(0.6) else {2: "Dataset2d", 3: "Dataset3d"}[ndim],
+           "array": dict(arr_json(a), layout=gen_layout(rng)), "dtype": dtype,
+           "origin": {"l": [fj(dyadic(rng)) for _ in range(ndim)]}, "sampling": {"l": [fj(Fraction(rng.randint(1, 16), 4)) for _ in range(ndim)]},
+           "units": {"l": [rng.choice(UNITS) for _ in range(ndim)]}}
+    cur = list(shape)
+    calls = []
+    for _ in range(rng.randint(2, 5)):
+        call, op, cur, valid = gen_form_call(rng, cur, dtype)
+        call["posn"] = rng.weighted([(0, 3), (1, 3), (2, 1), (3, 0.5)])
+        call["valid"] = bool(valid)
+        if op is not None:
+            call["resolved"] = op
+        calls.append(call)
+    return {"stream": "forms", "new": new, "calls": calls}
+
+
+def check_forms_history(ctx, drv, case):
+    from props.c06 import make_ds
+    warnings.simplefilter("ignore")
+    new, calls = case["new"], case["calls"]
+    ds = make_ds(new)
+    ctx.dist["forms:histories"] += 1
+    records = []
+    for i, call in enumerate(calls):
+        sub = dict(case, calls=calls[: i + 1])
+        m = call["m"]
+        snap = c03.snapshot(ds)
+        a0 = ds.array.copy()
+        o0 = [fr(float(x)) for x in ds.origin]
+        s0 = [fr(float(x)) for x in ds.sampling]
+        ret, err = None, None
+        try:
+            ret = apply_form_call(ds, call)
+        except Exception as e:  # noqa
+            err = err_name(e)
+        ctx.count()
+        ip = bool(call.get("inplace"))
+        tag = "valid" if call["valid"] else "rejected:" + call.get("why", "?")
+        ctx.dist[f"forms:{m}:{tag}"] += 1
+        for k in ("axes", "f", "out", "fs", "reducer", "mode"):
+            if k in call:
+                v = call[k]
+                form = ("None" if v is None else type(v).__name__ if not isinstance(v, (dict, str)) else
+                        (v if isinstance(v, str) else next(iter(v)))) if k != "reducer" else ("str:" + v["s"] if isinstance(v, dict) else repr(v))
+                ctx.dist[f"forms:{m}:{k}={form}"] += 1
+            elif k in {"bin": ("axes", "reducer"), "crop": ("axes",), "resample": ("axes",), "pad": ("mode",)}[m]:
+                ctx.dist[f"forms:{m}:{k} omitted (default)"] += 1
+        ctx.dist[f"forms:{m}:positional={call.get('posn', 0)}"] += 1
+        if "inplace" not in call:
+            ctx.dist[f"forms:{m}:modify_in_place omitted (default)"] += 1
+        ctx.mark(("forms", m, tag, ip, "inplace" in call, a0.ndim, tuple(sorted(k for k in call if k in ("axes", "reducer", "mode", "out", "fs")))))
+        after = c03.snapshot(ds)
+        records.append({"err": err, "recv": c03.safe_view(ds), "ret": c03.safe_view(ret)})
+        if err is not None:
+            if call["valid"]:
+                ctx.pred_fail(f"forms-{m}-raises", f"valid {m} call (documented argument form) raised {err}", sub, observed=err, required="result")
+                return
+            if after != snap:
+                ctx.pred_fail("rejected-call-changed-state", f"{m}() raised {err} ({call.get('why')}) but changed the dataset", sub,
+                              observed=c03.snap_diff(snap, after), required="array, origin and sampling bit-identical after a rejected call")
+                return
+            continue
+        if not call["valid"]:
+            ctx.dist["forms:malformed-call-accepted"] += 1         # the model decides (compared below)
+        res = ds if ip else ret
+        op = call.get("resolved")
+        pfx = f"call {i} ({m}, argument forms): "
+        if call["valid"] and op is not None and res is not None:
+            if m == "bin":
+                judge_bin(ctx, sub, op, a0, o0, s0, res, pfx)
+            elif m == "resample":
+                judge_resample(ctx, sub, op["axes"], op["outs"], a0, o0, s0, res, pfx)
+            elif m == "pad" and "out" in call["arg"]:
+                out = call["arg"]["out"]
+                widths = [(max(0, (o_ - n) // 2), max(0, -((n - o_) // 2))) for o_, n in zip(out, a0.shape)]
+                try:
+                    back = res.crop(tuple((b, -a) for b, a in widths))
+                    if back.array.shape != a0.shape or not np.array_equal(back.array, a0):
+                        ctx.pred_fail("pad-crop-roundtrip", pfx + f"pad(output_shape, mode={call.get('mode', 'default')}) followed by cropping the pad "
+                                      "widths does not return the original data", sub, observed={"shape": list(back.array.shape)}, required={"shape": list(a0.shape)})
+                except Exception as e:  # noqa
+                    ctx.pred_fail("padcrop-raises", pfx + f"crop of the pad widths raised {err_name(e)}", sub, observed=err_name(e), required="original data")
+        if call.get("follow") and ret is not None:
+            ds = ret
+    # ---- the model on the same calls
+    reqs = [{k: v for k, v in c.items() if k not in ("valid", "resolved", "why", "posn", "mode_kw")} for c in calls]
+    ans = drv.ask({"op": "calls", "new": new, "calls": reqs})
+    if "err" in ans:
+        raise RuntimeError(f"driver error {ans}")
+    flags = {"meta_inexact": False, "data_inexact": False, "f32": False}
+    for i, (mo, rec, call) in enumerate(zip(ans["ok"][1:], records, calls)):
+        sub = dict(case, calls=calls[: i + 1])
+        merr = mo["r"].get("err") if isinstance(mo.get("r"), dict) else None
+        if merr != rec["err"]:
+            ctx.disagree("forms", sub, {"outcome": merr or "ok"}, {"outcome": rec["err"] or "ok"}, note=f"call {i} {call['m']}: outcome")
+            return
+        if not c03.compare_view(ctx, "forms", sub, mo["recv"], rec["recv"], flags, f"call {i} {call['m']}: receiver"):
+            return
+        if merr is None and rec["ret"] is not None:
+            fl = dict(flags, meta_inexact=call["m"] == "resample")
+            if not c03.compare_view(ctx, "forms", sub, mo["r"]["ok"], rec["ret"], fl, f"call {i} {call['m']}: returned"):
+                return
+        if merr is None and (rec["ret"] is None) != (mo["r"]["ok"] is None):
+            ctx.disagree("forms", sub, {"returns": mo["r"]["ok"] is not None}, {"returns": rec["ret"] is not None},
+                         note=f"call {i} {call['m']}: in-place / copying (default of modify_in_place)")
+            return
+    ctx.sample({"stream": "forms", "shape": new["array"]["shape"], "calls": [{k: v for k, v in c.items() if k != "resolved"} for c in calls[:4]]}, limit=3)
+
+
+def run_forms(ctx, drv, n):
+    for c in range(n):
+        rng = ctx.rng.fork(170000 + c)
+        check_forms_history(ctx, drv, gen_forms_history(rng))
